@@ -571,6 +571,7 @@ type Contracts struct {
 	Monitors   []MonitorSpec
 	Writers    []WritersSpec
 	GlobalInits []WritersSpec
+	LockDefault map[string]string // package path -> lock mode of functions without an explicit lockmode
 }
 
 // WritersSpec: only the listed functions may contain a store to the field.
@@ -593,7 +594,7 @@ var clauseKeywords = map[string]bool{
 	"func": true, "requires": true, "ensures": true, "assumes": true, "step": true, "globalinit": true, "modifies": true, "loop": true,
 	"pure": true, "property": true, "ghost": true, "lemma": true, "lockmode": true,
 	"at": true, "trusted": true, "safety": true, "end": true, "lpre": true, "lpost": true,
-	"writers": true, "allowread": true, "monitor": true, "lockdomain": true, "immutable": true, "unguarded": true, "guardedmap": true, "guardedmem": true,
+	"lockdefault": true, "writers": true, "allowread": true, "monitor": true, "lockdomain": true, "immutable": true, "unguarded": true, "guardedmap": true, "guardedmem": true,
 }
 
 // LoadContracts reads every *_contracts_verif.go below root. modPath is the Go module path.
@@ -869,6 +870,11 @@ func (c *Contracts) parseFile(path, pkg string) error {
 				return fmt.Errorf("%s: ghost $name scalar|array Int|Bool", where)
 			}
 			c.Ghosts[parts[0]] = &GhostSpec{Name: parts[0], Array: parts[1] == "array", Sort: parts[2]}
+		case "lockdefault":
+			if c.LockDefault == nil {
+				c.LockDefault = map[string]string{}
+			}
+			c.LockDefault[pkg] = strings.TrimSpace(rest)
 		case "writers":
 			// writers Type.field: f1, f2
 			k := strings.Index(rest, ":")
